@@ -99,7 +99,7 @@ InitSc ==
           /\ (v = "foreignIface" => r = "value")
           /\ sc = [Base EXCEPT !.cptr = c, !.recv = r, !.via = v, !.sealed = TRUE]
   \/ /\ Family = "qual"      \* qualifier resolution and interface lookup
-     /\ \E q \in Quals, k \in {"iface", "nonIface", "absent"}, c \in BOOLEAN, r \in {"value", "none"}, a \in {"int", "string"}, sb \in {"none", "binds"}, sh \in BOOLEAN :
+     /\ \E q \in Quals, k \in {"iface", "embedOnly", "nonIface", "absent"}, c \in BOOLEAN, r \in {"value", "none"}, a \in {"int", "string"}, sb \in {"none", "binds"}, sh \in BOOLEAN :
           /\ (sb = "binds" => q \in {"declared", "alias", "unbound"})
           /\ (sh => q \in {"declared", "alias"} /\ sb = "none")
           /\ sc = [Base EXCEPT !.qual = q, !.ikind = k, !.cptr = c, !.recv = r, !.pT = a, !.sib = sb, !.shadow = sh]
@@ -117,9 +117,11 @@ Bound(q) == q \in {"none", "declared", "diffname", "alias"}
 InMethodSet(s) == s.recv # "none" /\ (s.cptr \/ s.recv = "value" \/ s.via \in {"embedPtr", "foreignPtr", "foreignIface"})
 SigIdentical(s) == Canon(s.pT) = Canon(s.pI) /\ Canon(s.rT) = Canon(s.rI) /\ s.vT = s.vI
 MName(s) == IF s.sealed THEN "seal" ELSE "M"
+\* ikind embedOnly: I is `interface{ I1 }` with the method declared in I1 only - the same method set as iface
+IsIface(s) == s.ikind \in {"iface", "embedOnly"}
 Missing(s) == (IF InMethodSet(s) /\ SigIdentical(s) THEN {} ELSE {MName(s)}) \cup (IF s.two THEN {"Extra"} ELSE {})
 L1(s) == IF ~Bound(s.qual) THEN <<"IMPL01", {}>>
-         ELSE IF s.ikind # "iface" THEN <<"IMPL02", {}>>
+         ELSE IF ~IsIface(s) THEN <<"IMPL02", {}>>
          ELSE IF Missing(s) = {} THEN <<"none", {}>> ELSE <<"IMPL03", Missing(s)>>
 
 L1Second(s) == CASE s.second \in {"unbound1", "unbound2"} -> <<"IMPL01", {}>>
@@ -149,7 +151,7 @@ ResolveQualifier ==
 LookupInterface ==
   /\ ph = "lookup"
   /\ found' = IF "SharedImports" \in Deviations /\ sc.sib = "binds" THEN FALSE    \* ... and leads to a package without I
-              ELSE (bound /\ sc.ikind = "iface" /\ ~(sc.qual = "selfname"))       \* resolved to some other import: no such interface there
+              ELSE (bound /\ IsIface(sc) /\ ~(sc.qual = "selfname"))       \* resolved to some other import: no such interface there
   /\ ph' = "mset"
   /\ UNCHANGED <<sc, bound, inms, res, res2>>
 
@@ -169,6 +171,8 @@ Compare ==
   /\ LET drop == "DropTypeAfterUnbound" \in Deviations /\ FirstUnbound(sc)
          main == IF ~bound THEN <<"IMPL01", {}>>
                  ELSE IF ~found THEN <<"IMPL02", {}>>
+                 \* ExplicitMethodsOnly: an interface without methods of its own is loaded with an empty method list
+                 ELSE IF "ExplicitMethodsOnly" \in Deviations /\ sc.ikind = "embedOnly" THEN <<"none", {}>>
                  ELSE LET ok == inms /\ Same(sc.pT, sc.pI) /\ Same(sc.rT, sc.rI) /\ sc.vT = sc.vI
                           miss == (IF ok THEN {} ELSE {MName(sc)}) \cup (IF sc.two THEN {"Extra"} ELSE {})
                       IN IF miss = {} THEN <<"none", {}>> ELSE <<"IMPL03", miss>>
@@ -188,20 +192,20 @@ Termination == <>Done
 Exact == Done => res = L1(sc) /\ res2 = L1Second(sc)
 \* the three codes are mutually exclusive and ordered
 Ordered == Done => /\ (res[1] = "IMPL01" <=> ~Bound(sc.qual))
-                   /\ (res[1] = "IMPL02" => Bound(sc.qual) /\ sc.ikind # "iface")
-CorrectIsSilent == (Done /\ Bound(sc.qual) /\ sc.ikind = "iface" /\ InMethodSet(sc) /\ SigIdentical(sc) /\ ~sc.two) => res[1] = "none"
+                   /\ (res[1] = "IMPL02" => Bound(sc.qual) /\ ~IsIface(sc))
+CorrectIsSilent == (Done /\ Bound(sc.qual) /\ IsIface(sc) /\ InMethodSet(sc) /\ SigIdentical(sc) /\ ~sc.two) => res[1] = "none"
 
 \* what the pinned implementation would answer (all three deviations): used to attribute known findings
 Pinned(s) ==
   LET b == CASE s.qual = "diffname" -> FALSE [] s.qual = "selfname" -> TRUE [] OTHER -> Bound(s.qual)
-      f == b /\ s.ikind = "iface" /\ s.qual # "selfname"
+      f == b /\ IsIface(s) /\ s.qual # "selfname"
       ms == s.recv # "none" /\ (s.cptr \/ s.recv = "value")
       ok == ms /\ CodeKey(s.pT) = CodeKey(s.pI) /\ CodeKey(s.rT) = CodeKey(s.rI) /\ s.vT = s.vI
       miss == (IF ok THEN {} ELSE {"M"}) \cup (IF s.two THEN {"Extra"} ELSE {})
   IN IF ~b THEN <<"IMPL01", {}>> ELSE IF ~f THEN <<"IMPL02", {}>> ELSE IF miss = {} THEN <<"none", {}>> ELSE <<"IMPL03", miss>>
 
 \* KF1: what the implementation answers when the last path element is taken as a binding
-KF1(s) == IF s.ikind # "iface" THEN <<"IMPL02", {}>> ELSE IF Missing(s) = {} THEN <<"none", {}>> ELSE <<"IMPL03", Missing(s)>>
+KF1(s) == IF ~IsIface(s) THEN <<"IMPL02", {}>> ELSE IF Missing(s) = {} THEN <<"none", {}>> ELSE <<"IMPL03", Missing(s)>>
 
 EmitInv == (Emit /\ Done) =>
    PrintT("@E " \o ToJson([sc |-> sc, code |-> L1(sc)[1], missing |-> L1(sc)[2], pinned_code |-> Pinned(sc)[1], pinned_missing |-> Pinned(sc)[2],
